@@ -26,6 +26,9 @@ def hexs(a):
     return bytes(a).hex()
 
 
+LADDER_CONFIGS = [("default", "", {}), ("nobmi2", "", {"GODEBUG": "cpu.bmi2=off"}), ("noadx", "", {"GODEBUG": "cpu.adx=off,cpu.bmi2=off"}), ("purego", "purego", {})]
+
+
 def run(tier, rep, replay=None):
     w = C.scratch("c06")
     C.stage_specs(w, "C06", "C12")
@@ -75,6 +78,38 @@ def run(tier, rep, replay=None):
             key = "%s:%s:%s:%s:%s" % (ln["ev"], ln["curve"], ln.get("op", ""), ln["class"].split("/")[0], what)
             det = {"curve": ln["curve"], "op": ln["op"], "class": ln["class"], "k": hexs(ln["k"]), "u": hexs(ln["u"]), "out": hexs(ln["out"]), "ref": hexs(ln["ref"]), "outb": hexs(ln["outb"]), "ok": ln["ok"]}
         rep.violation(key, {"observed": det, "explain": "line rejected by Trace_Dh.tla"})
+    # ---- the ladder building blocks of dh/x25519 and dh/x448 (mulA24, double, ladderStep, diffAdd) under every back-end, in-package recorders
+    llines = []
+    for pkg in ("dh/x25519", "dh/x448"):
+        for label, tags, env in LADDER_CONFIGS:
+            tb = C.go_build_intree(w, pkg, tags=tags)
+            lp = os.path.join(w, "l-%s-%s.ndjson" % (pkg.replace("/", "_"), label))
+            C.run([tb, "-test.run", "TestVerifLadder", "-test.count=1"], env=dict(os.environ, VERIF_OUT=lp, VERIF_SEED=str(C.SEED), VERIF_N="150" if thorough else "25", VERIF_IMPL=label, **env),
+                  timeout=3000, what="in-tree ladder recorder %s %s" % (pkg, label))
+            llines += C.read_ndjson(lp)
+    shards = [llines[i::8] for i in range(8)]
+
+    def lshard(i):
+        d = os.path.join(w, "lad%d" % i)
+        os.makedirs(d, exist_ok=True)
+        C.stage_specs(d, "C06", "C12")
+        return C.validate_lines(d, "Trace_Ladder", "Lines.cfg", shards[i])
+    with ThreadPoolExecutor(8) as ex:
+        lres = list(ex.map(lshard, range(8)))
+    for i, (lb, _) in enumerate(lres):
+        for j in lb:
+            ln = shards[i][j]
+            rep.violation("ladder:%s:%s:%s:%s" % (ln["curve"], ln["op"], ln["class"].split()[0], ln["impl"]),
+                          {"observed": ln, "explain": "output is not congruent to the Montgomery-ladder formula of Trace_Ladder.tla (TLC reduces modulo p itself)"})
+    lgood = [l for l in llines if l["op"] == "mulA24" and not l["panics"]]
+    if lgood:
+        x = copy.deepcopy(lgood[0])
+        x["out"][0][0] = (x["out"][0][0] + 38) % 4096
+        b3, _ = C.validate_lines(w, "Trace_Ladder", "Lines.cfg", [x])
+        if b3 != [0]:
+            raise C.Infra("ladder binding canary accepted")
+    rep.add(ladder_lines=len(llines), ladder_ops=sorted({l["op"] for l in llines}), ladder_classes=sorted({l["class"] for l in llines}), ladder_configs=[c[0] for c in LADDER_CONFIGS],
+            ladder_states=sum(r.distinct for _, r in lres))
     good = [i for i in range(len(lines)) if i not in set(bad) and lines[i]["ev"] == "dh" and lines[i]["op"] == "shared"]
     if good:
         x = copy.deepcopy(lines[random.Random(C.SEED).choice(good)])
@@ -86,7 +121,7 @@ def run(tier, rep, replay=None):
             raise C.Infra("binding canary accepted")
     rep.add(states=max(1, states), transitions=max(1, states), traces_validated_against_impl=len(lines), tlc_recomputed=len(jobs),
             tlc_recomputed_classes=sorted({j["class"] for j in jobs}), dh_lines=sum(1 for l in lines if l["ev"] == "dh"), alias_lines=sum(1 for l in lines if l["ev"] == "alias"),
-            kem_lines=sum(1 for l in lines if l["ev"] == "kem"), back_end="the build's default (C12/C14 run the field and ladder code under every back-end)")
+            kem_lines=sum(1 for l in lines if l["ev"] == "kem"), back_end="Shared / KeyGen: the build's default (C14 compares the back-ends); ladder building blocks: every back-end")
     for l in [x for x in lines if x["ev"] == "dh"][:1] + [x for x in lines if x["ev"] == "kem"][:2]:
         rep.sample({k: (hexs(v) if k in ("k", "u", "out", "ref", "outb") else v) for k, v in l.items() if k not in ("ua", "ub", "qa", "qb")})
     rep.assumptions += ["bulk comparison uses a math/big transcription of RFC 7748 (harness/drivers/terms); TLC itself recomputes RFC 7748 (MontJobs.tla, no hints) for a class-covering sample of the same run, including the RFC vectors and a falsified vector that must be rejected",
@@ -94,7 +129,7 @@ def run(tier, rep, replay=None):
 
 
 MANIFEST = {
- "text": "MontJobs.tla is RFC 7748 section 5 as an executable TLA+ job machine (scalar clamping, u decoding with the ignored bit and reduction mod p, one action per ladder step on base-4096 digit arithmetic, final projective comparison instead of the inversion): TLC recomputes, without any hint, the X25519 / X448 value for a class-covering sample of the (scalar, peer, output) triples the library produced in the same run, after reproducing the RFC vectors and rejecting a falsified one. The driver calls x25519/x448 KeyGen and Shared on every combination of peer classes (0, 1, p-1, p, p+1, 2p+-d, 2^255+-d, the order-8 points and their non-canonical and top-bit aliases, p+0..20 with and without bit 255, all-ones, low limbs all ones, single limbs, limb boundaries, structured, random) and scalar classes (0, 1, all-ones, clamping-sensitive first and last bytes, random); TLC judges each line: value = RFC value, flag false exactly when the value is all zero, aliases of the same field element (checked mod p by TLC) give the same output, two parties agree, KeyGen = function of the base point, and for the 10 KEM wrappers (HPKE X25519 / X448 / X25519Kyber768 / X-Wing, four Kyber-X hybrids, X25519MLKEM768, X-Wing) a low-order peer value in the public key or ciphertext yields an error (X-Wing exempt) while honest runs succeed.",
+ "text": "Trace_Ladder.tla judges the ladder building blocks of dh/x25519 and dh/x448 (mulA24, double, ladderStep, diffAdd) recorded in-package under four back-end configurations on structured raw operands, incl. the operands for which a24 * x needs its second carry fold: TLC reduces modulo p itself and requires the RFC 7748 step formulas. MontJobs.tla is RFC 7748 section 5 as an executable TLA+ job machine (scalar clamping, u decoding with the ignored bit and reduction mod p, one action per ladder step on base-4096 digit arithmetic, final projective comparison instead of the inversion): TLC recomputes, without any hint, the X25519 / X448 value for a class-covering sample of the (scalar, peer, output) triples the library produced in the same run, after reproducing the RFC vectors and rejecting a falsified one. The driver calls x25519/x448 KeyGen and Shared on every combination of peer classes (0, 1, p-1, p, p+1, 2p+-d, 2^255+-d, the order-8 points and their non-canonical and top-bit aliases, p+0..20 with and without bit 255, all-ones, low limbs all ones, single limbs, limb boundaries, structured, random) and scalar classes (0, 1, all-ones, clamping-sensitive first and last bytes, random); TLC judges each line: value = RFC value, flag false exactly when the value is all zero, aliases of the same field element (checked mod p by TLC) give the same output, two parties agree, KeyGen = function of the base point, and for the 10 KEM wrappers (HPKE X25519 / X448 / X25519Kyber768 / X-Wing, four Kyber-X hybrids, X25519MLKEM768, X-Wing) a low-order peer value in the public key or ciphertext yields an error (X-Wing exempt) while honest runs succeed.",
  "note": "TLC recomputation is limited to 8 triples in quick (6 X25519 at about 35 s, 2 X448 at about 4 min, parallel JVMs) and 52 in thorough; all other lines rely on the math/big reference.",
  "technique": "executable TLA+ RFC 7748 (TLC recomputation of sampled outputs, no hints) + TLC judgement of recorded calls (flag rule, alias / agreement relations with BigNat congruences, KEM error rule) + differential against a math/big transcription",
 }
